@@ -598,6 +598,113 @@ def gen_hist_rect(ctx, rng):
             "sform": form, "shape": "hist"}
 
 
+def _py_intersect(l, u, L, U):
+    """generator-side copy of the intersect law (the run-time oracle is the Lean op `intersect`)"""
+    if any(a >= b for a, b in zip(l, U)) or any(a <= b for a, b in zip(u, L)):
+        return list(L), list(U)
+    return [max(a, b) for a, b in zip(l, L)], [min(a, b) for a, b in zip(u, U)]
+
+
+def gen_hist_shared(ctx, rng):
+    """several rectangle regions built from SHARED bound arrays (the same ndarray objects), either directly or
+    through the real `AdaptivelyDiscretizedDesignSpace.generate_child_designs`; update()/intersect() sequences
+    on some of them; after every step every region must still display the bounds it should and every pairwise
+    is_dominated answer must be the model's verdict on those bounds"""
+    name = rng.choice(sorted(k for k in INT_CONES if len(INT_CONES[k][0]) >= 2))
+    m = len(INT_CONES[name][0])
+    p = rng.choice([1, 2, 3])
+    step = Fraction(1, 2 ** p)
+    mode = rng.choice(["arrays", "arrays", "children"])
+    base = [dy(rng, -4 * 2 ** p, 4 * 2 ** p, p) for _ in range(m)]
+    regions = []      # [lower values, upper values] as Fractions, for the generator's own tracking
+    case = {"kind": "shared", "mode": mode, "order": {"t": "int", "name": name}, "shape": "hist-shared"}
+    if mode == "arrays":
+        npts = rng.choice([3, 3, 4])
+        pts = [base]
+        for _ in range(npts - 1):
+            pts.append([a + dy(rng, 2, 6 * 2 ** p, p) for a in pts[-1]])
+        pairs = [(i, j) for i in range(npts) for j in range(i + 1, npts)]
+        rng.shuffle(pairs)
+        pairs = pairs[:rng.choice([2, 3, 3, 4])]
+        if rng.random() < 0.3:
+            pairs.append(pairs[0])          # a region cloned from another one (both arrays shared)
+        case["pts"] = [[float(x) for x in q] for q in pts]
+        case["regions"] = [[i, j, rng.random() < 0.65] for i, j in pairs]
+        regions = [[list(pts[i]), list(pts[j])] for i, j in pairs]
+    else:
+        h = [dy(rng, 2, 6 * 2 ** p, p) for _ in range(m)]
+        l0, u0 = [a - b for a, b in zip(base, h)], [a + b for a, b in zip(base, h)]
+        dd = rng.choice([1, 1, 2])
+        case["root_mean"] = [float(x) for x in base]
+        case["root_std"] = [float(x) for x in h]
+        case["domain_dim"] = dd
+        case["iters"] = [rng.random() < 0.65 for _ in range(1 + 2 ** dd)]
+        regions = [[list(l0), list(u0)] for _ in range(1 + 2 ** dd)]
+    # one or two independent regions built from fresh arrays
+    fresh = []
+    for _ in range(rng.choice([1, 1, 2])):
+        src = rng.choice(regions)
+        off = rng.choice([-1, 0, 1, 2])
+        l = [a + off * (b - a) / 2 + dy(rng, -2, 2, p) for a, b in zip(src[0], src[1])]
+        u = [a + dy(rng, 1, 3 * 2 ** p, p) for a in l]
+        fresh.append([[float(x) for x in l], [float(x) for x in u], rng.random() < 0.5])
+        regions.append([l, u])
+    case["fresh"] = fresh
+    nreg = len(regions)
+    iters = ([r[2] for r in case["regions"]] if mode == "arrays" else list(case["iters"])) + [f[2] for f in fresh]
+    if not any(iters[:nreg - len(fresh)]):
+        if mode == "arrays":
+            case["regions"][0][2] = True
+        else:
+            case["iters"][1] = True
+        iters[0 if mode == "arrays" else 1] = True
+    steps = []
+    for _ in range(rng.randint(1, 4)):
+        cand = [k for k in range(nreg - len(fresh)) if iters[k]]
+        tgt = rng.choice(cand) if rng.random() < 0.8 else rng.randrange(nreg)
+        l, u = regions[tgt]
+        how = rng.choice(["inside", "inside", "inside", "partial", "away"])
+        L, U = [], []
+        for a, b in zip(l, u):
+            w = b - a
+            if how == "inside":
+                lo = a + step * rng.randint(0, max(0, int(w / step) // 2))
+                hi = b - step * rng.randint(0, max(0, int(w / step) // 2 - 1))
+            elif how == "partial":
+                lo = a - step * rng.randint(0, 4) + rng.choice([0, 1]) * w / 2
+                hi = lo + max(2 * step, w / 2 + step * rng.randint(0, 4))
+            else:
+                lo = b + step * rng.randint(0, 8)
+                hi = lo + step * 2 * rng.randint(1, 8)
+            if hi - lo < 2 * step:
+                hi = lo + 2 * step
+            if ((hi - lo) / step) % 2 == 1:
+                hi += step                         # even width: (U-L)/2 stays on the lattice
+            L.append(lo)
+            U.append(hi)
+        op = rng.choice(["update", "intersect"])
+        st = {"op": op, "target": tgt}
+        if op == "update":
+            st["mean"] = [float((a + b) / 2) for a, b in zip(L, U)]
+            st["std"] = [float((b - a) / 2) for a, b in zip(L, U)]
+        else:
+            st["lower"], st["upper"] = [float(x) for x in L], [float(x) for x in U]
+        steps.append(st)
+        if op == "intersect" or iters[tgt]:
+            regions[tgt] = list(_py_intersect(l, u, L, U))
+        else:
+            regions[tgt] = [L, U]
+    case["steps"] = steps
+    sk = rng.choice(["zero", "zero", "scalar", "vector"])
+    if sk == "zero":
+        case["slack"], case["sform"] = [0.0], rng.choice(["py", "0d", "vec"])
+    elif sk == "scalar":
+        case["slack"], case["sform"] = [float(dy(rng, -2, 4, p))], rng.choice(["py", "0d", "vec"])
+    else:
+        case["slack"], case["sform"] = [float(dy(rng, -2, 4, p)) for _ in range(m)], "vec"
+    return case
+
+
 def gen_hist_ell(ctx, rng, nprng):
     spec = pick_order(ctx, rng, nprng)
     order = build_order(spec)
@@ -640,7 +747,8 @@ def gen(ctx):
     rng, nprng = ctx.rng, ctx.nprng
     plan = [("rect_exact", ctx.n(320, 60000)), ("rect_intW", ctx.n(90, 12000)),
             ("rect_float", ctx.n(100, 15000)), ("ell", ctx.n(170, 30000)),
-            ("hist_rect", ctx.n(40, 5000)), ("hist_ell", ctx.n(12, 1500)), ("badslack", ctx.n(24, 1500))]
+            ("hist_rect", ctx.n(40, 5000)), ("hist_shared", ctx.n(40, 5000)), ("hist_ell", ctx.n(12, 1500)),
+            ("badslack", ctx.n(24, 1500))]
     for stream, cnt in plan:
         k = 0
         tries = 0
@@ -652,6 +760,8 @@ def gen(ctx):
                 case = gen_rect_exact(ctx, rng, dtype=rng.choice(["int64", "int32", "list"]))
             elif stream == "hist_rect":
                 case = gen_hist_rect(ctx, rng)
+            elif stream == "hist_shared":
+                case = gen_hist_shared(ctx, rng)
             elif stream == "hist_ell":
                 case = gen_hist_ell(ctx, rng, nprng)
             elif stream == "rect_float":
@@ -700,6 +810,9 @@ def run_case(ctx, case):
     ctx.count("slackform_%s_%d" % (case["sform"], min(len(case["slack"]), 2)))
     if case["kind"] == "hist":
         _run_hist(ctx, case, order, W, ws, slack, ss)
+        return
+    if case["kind"] == "shared":
+        _run_shared(ctx, case, order, W, ws, slack, ss)
         return
     if case["kind"] == "rect":
         if case["order"].get("dtype"):
@@ -892,6 +1005,91 @@ def _run_hist(ctx, case, order, W, ws, slack, ss):
     changed = len({a for a in answers if a is not None}) > 1
     ctx.count("hist_verdict_%s" % ("changes" if changed else "constant"))
     ctx.case_done(case, changed, canon=_canon(case))
+
+
+def _run_shared(ctx, case, order, W, ws, slack, ss):
+    from vopy.confidence_region import RectangularConfidenceRegion
+
+    N, m = W.shape
+    ctx.count("stream_hist_shared_" + case["mode"])
+    regs, exp = [], []          # region objects / bounds each SHOULD display (exact dyadic floats)
+    if case["mode"] == "arrays":
+        pts = [np.array(q, dtype=float) for q in case["pts"]]          # the shared ndarray objects
+        for i, j, it in case["regions"]:
+            regs.append(RectangularConfidenceRegion(m, pts[i], pts[j], intersect_iteratively=bool(it)))
+            exp.append([list(case["pts"][i]), list(case["pts"][j])])
+    else:
+        from vopy.design_space import AdaptivelyDiscretizedDesignSpace
+
+        ds = AdaptivelyDiscretizedDesignSpace(domain_dim=case["domain_dim"], objective_dim=m, delta=0.1,
+                                              max_depth=5)
+        mean, std = np.array(case["root_mean"], dtype=float), np.array(case["root_std"], dtype=float)
+        ds.confidence_regions[0].update(mean, np.diag(std * std), np.array(1.0))
+        kids = ds.generate_child_designs(0)                              # children share the parent's arrays
+        regs = [ds.confidence_regions[0]] + [ds.confidence_regions[k] for k in kids]
+        for r, it in zip(regs, case["iters"]):
+            r.intersect_iteratively = bool(it)
+        exp = [[(mean - std).tolist(), (mean + std).tolist()] for _ in regs]
+    for l, u, it in case["fresh"]:
+        regs.append(RectangularConfidenceRegion(m, np.array(l, dtype=float), np.array(u, dtype=float),
+                                                intersect_iteratively=bool(it)))
+        exp.append([list(l), list(u)])
+    iters = [bool(r.intersect_iteratively) for r in regs]
+    verdicts = set()
+    for k in range(len(case["steps"]) + 1):
+        touched = None
+        if k > 0:
+            st = case["steps"][k - 1]
+            touched = st["target"]
+            r = regs[touched]
+            if st["op"] == "update":
+                mean, std = np.array(st["mean"], dtype=float), np.array(st["std"], dtype=float)
+                r.update(mean, np.diag(std * std), np.array(1.0))
+                L, U = (mean - std).tolist(), (mean + std).tolist()
+                law = iters[touched]
+            else:
+                L, U = list(st["lower"]), list(st["upper"])
+                r.intersect(np.array(L, dtype=float), np.array(U, dtype=float))
+                law = True
+            if law:   # the C14 model's intersect law, evaluated by the Lean driver
+                ans = core.parse_qmat(ctx.ask("intersect", core.qvec(exp[touched][0]), core.qvec(exp[touched][1]),
+                                              core.qvec(L), core.qvec(U)))
+                exp[touched] = [[float(x) for x in ans[0]], [float(x) for x in ans[1]]]
+            else:
+                exp[touched] = [L, U]
+            ctx.count("shared_op_%s_%s" % (st["op"], "iter" if iters[touched] else "plain"))
+        # (a) displayed bounds
+        for i, r in enumerate(regs):
+            shown = [np.array(r.lower, dtype=float).tolist(), np.array(r.upper, dtype=float).tolist()]
+            if shown == exp[i]:
+                continue
+            if i != touched:
+                ctx.violation("region-mutated-by-sibling", "a rectangle region that was not updated changed its "
+                              "displayed bounds after another region built from the same bound arrays was refined",
+                              case, detail={"step": k, "region": i, "shown": shown, "should": exp[i]})
+            else:
+                ctx.violation("region-update-law", "after update()/intersect() the region does not display the "
+                              "bounds of the intersect law (C14 model)", case, kind="F",
+                              detail={"step": k, "region": i, "shown": shown, "should": exp[i]})
+        # (b) every ordered pair: the answer must be the model's verdict on the bounds that should be displayed
+        for i in range(len(regs)):
+            for j in range(len(regs)):
+                if i == j:
+                    continue
+                impl, ekey = _impl(order, regs[i], regs[j], slack)
+                model = ctx.ask("rect", ws, core.qvec(exp[i][0]), core.qvec(exp[i][1]), core.qvec(exp[j][0]),
+                                core.qvec(exp[j][1]), ss)
+                if model not in ("0", "1"):
+                    raise RuntimeError("driver answered %r in a shared-history case" % model)
+                verdicts.add(model)
+                if impl != model:
+                    ctx.violation("shared-rect-decision", "is_dominated between regions built from shared bound "
+                                  "arrays is not the ∀∀ verdict for the bounds the two regions should display "
+                                  "after the update history", case,
+                                  detail={"step": k, "pair": [i, j], "impl": impl, "model": model, "ekey": ekey})
+                else:
+                    ctx.count("shared_query_" + model)
+    ctx.case_done(case, len(verdicts) > 1, canon=_canon(case))
 
 
 def _check_vertices(ctx, case, l, u):
